@@ -82,16 +82,22 @@ def main():
             for cur in files:
                 rep = subprocess.run(["llvm-cov-14", "show", bins[0]] + objs + ["-instr-profile=" + prof, "-show-line-counts-or-regions=0", "-show-expansions=0", "-show-instantiations=0", cur], stdout=subprocess.PIPE, stderr=subprocess.DEVNULL, text=True).stdout
                 st = {"cov": 0, "unc": []}
+                prevsrc = ""
                 for ln in rep.splitlines():
                     m = re.match(r"^\s*(\d+)\|\s*([0-9.kMGE]*)\|(.*)$", ln)
                     if m:
                         no, cnt, src = int(m.group(1)), m.group(2), m.group(3)
                         if cnt == "":
+                            if src.strip():
+                                prevsrc = src
                             continue
-                        if cnt == "0":
+                        if cnt == "0" and ("ASSERT(" in prevsrc or "VERIFY(" in src):
+                            pass    # artefact: the statement after an ASSERT (a macro that ends in a conditional) starts a region that llvm-cov reports with the count of the macro's failure branch
+                        elif cnt == "0":
                             st["unc"].append((no, src))
                         else:
                             st["cov"] += 1
+                        prevsrc = src
                 if st["cov"] or st["unc"]:
                     per[cur] = st
             out = []
